@@ -350,8 +350,10 @@ public:
     //! lexicographically
     bool operator<(const StringView& other) const noexcept
     {
-        return std::lexicographical_compare(ptr_, ptr_ + size_, other.ptr_,
-                                            other.ptr_ + other.size_);
+        // compare bytes as unsigned char, like std::char_traits<char>::lt
+        return std::lexicographical_compare(
+            ptr_, ptr_ + size_, other.ptr_, other.ptr_ + other.size_,
+            [](char a, char b) { return std::char_traits<char>::lt(a, b); });
     }
 
     //! Greater than
@@ -667,14 +669,14 @@ static inline bool operator!=(const std::string& a,
 //! lexicographically
 static inline bool operator<(const StringView& a, const std::string& b) noexcept
 {
-    return std::lexicographical_compare(a.begin(), a.end(), b.begin(), b.end());
+    return a < StringView(b);
 }
 
 //! less operator to compare a StringView with a std::string
 //! lexicographically
 static inline bool operator<(const std::string& a, const StringView& b) noexcept
 {
-    return std::lexicographical_compare(a.begin(), a.end(), b.begin(), b.end());
+    return StringView(a) < b;
 }
 
 static inline bool operator>(const StringView& x, const std::string& y) noexcept
